@@ -232,7 +232,7 @@ def build_models():
             if fn.endswith(".ml"):
                 shutil.copyfile(os.path.join(VERIF, "ocaml", fn), os.path.join(bdir, fn))
         for d in ocaml_drivers():
-            rc, o, e = sh(["ocamlfind", "ocamlopt", "-O3" if False else "-inline", "100", "-w", "-a", "-o", d,
+            rc, o, e = sh(["ocamlfind", "ocamlopt", "-package", "unix", "-linkpkg", "-inline", "100", "-w", "-a", "-o", d,
                            "models.mli", "models.ml", "common.ml", d + ".ml"], cwd=bdir, timeout=900)
             if rc != 0:
                 raise BuildError("ocaml build of %s failed:\n%s%s" % (d, o, e))
